@@ -323,9 +323,18 @@ impl<'input> GrmtoolsSectionParser<'input> {
                                     end_pos,
                                 ));
                             }
-                            if let Ok((val, k)) = self.parse_setting(j) {
-                                vals.push(val);
-                                j = self.parse_ws(k);
+                            match self.parse_setting(j) {
+                                Ok((val, k)) => {
+                                    vals.push(val);
+                                    j = self.parse_ws(k);
+                                }
+                                Err(e) => {
+                                    // No element here. Unless a separator follows, the
+                                    // loop could not make progress: report the error.
+                                    if self.lookahead_is(",", j).is_none() {
+                                        return Err(e);
+                                    }
+                                }
                             }
                             if let Some(k) = self.lookahead_is(",", j) {
                                 j = k
